@@ -56,10 +56,16 @@ func recC11() *vkit.Recorder {
 }
 
 func secretsOfJob(j *Job) []string {
-	if j.Auth.Kind == "" || j.Auth.Kind == "bearer_file" {
-		return nil
+	var out []string
+	for i := range j.SDs {
+		if j.SDs[i].Secret != "" {
+			out = append(out, j.SDs[i].Secret)
+		}
 	}
-	return []string{j.Auth.Secret}
+	if j.Auth.Kind == "" || j.Auth.Kind == "bearer_file" {
+		return out
+	}
+	return append(out, j.Auth.Secret)
 }
 
 // rapid_bool: a case-determined choice (no random source of its own): does the follow-up only re-send the assignment
